@@ -398,7 +398,25 @@ func (c *Conn) reader(ctx context.Context) (_ MessageType, _ io.Reader, err erro
 
 	c.msgReader.reset(ctx, h)
 
-	return MessageType(h.opcode), c.msgReader, nil
+	return MessageType(h.opcode), &msgReaderHandle{mr: c.msgReader}, nil
+}
+
+// msgReaderHandle is what a single call of Reader returns. Once it has reported the end
+// of its message it touches neither the connection nor the context of that message again.
+type msgReaderHandle struct {
+	mr  *msgReader
+	eof bool
+}
+
+func (h *msgReaderHandle) Read(p []byte) (int, error) {
+	if h.eof {
+		return 0, io.EOF
+	}
+	n, err := h.mr.Read(p)
+	if err == io.EOF {
+		h.eof = true
+	}
+	return n, err
 }
 
 type msgReader struct {
